@@ -49,7 +49,10 @@ def gen_prog(rng, length):
 def run_scenario(binp, line):
     env = dict(os.environ)
     env["TSAN_OPTIONS"] = "halt_on_error=0 report_signal_unsafe=0 exitcode=0 second_deadlock_stack=0"
-    p = subprocess.run([binp], input=line + "\n", stdout=subprocess.PIPE, stderr=subprocess.PIPE, text=True, env=env, timeout=600)
+    try:
+        p = subprocess.run([binp], input=line + "\n", stdout=subprocess.PIPE, stderr=subprocess.PIPE, text=True, env=env, timeout=90)
+    except subprocess.TimeoutExpired as e:
+        return -999, "", "scenario did not finish within 90 s (deadlock or livelock)\n" + ((e.stderr or b"").decode(errors="replace") if isinstance(e.stderr, bytes) else (e.stderr or ""))[-2000:]
     return p.returncode, p.stdout.strip(), p.stderr
 
 
